@@ -153,6 +153,11 @@ theorem place_absent {f : Forest} {e nm : Nat} {N A S : List HTree} (h : MInv f 
   intro s' f'
   refine ⟨mapPlace_spec h.loc h.sect k nd v hroot hne, ?_, ?_, by simp [s', HTree.handle]⟩
   · apply h.update k s'
+    · intro x hx
+      simp only [s', List.mem_append, List.mem_singleton] at hx
+      rcases hx with hx | hx
+      · exact h.leaf k x hx
+      · rw [hx]; rfl
     · have hks : N ++ A ++ S = (preK k N ++ Sect.sec k N A) ++ postK k A S := split_kids k N A S
       have := located_placed h.loc nd v hroot hne _ _ hks
       simp only [s', f']
@@ -216,6 +221,13 @@ theorem remove_present {f : Forest} {e nm : Nat} {N A S : List HTree} (h : MInv 
   rw [hkids] at hrem
   refine ⟨hrem, ?_, ?_⟩
   · apply h.update k (s1 ++ s2)
+    · intro x hx
+      apply h.leaf k x
+      rw [hs]
+      simp only [List.mem_append, List.mem_cons] at hx ⊢
+      rcases hx with hx | hx
+      · exact Or.inl hx
+      · exact Or.inr (Or.inr hx)
     · have := located_after_cut hloc
       rw [hkids] at this
       exact this
